@@ -245,6 +245,9 @@ def parse_ranges(intervals):
         except ValueError:
             raise ValueError(f'range bound {bounds[1]!r} is not an '
                              'integer') from None
+        if start > end:
+            raise ValueError(f'the lower bound of range {rang!r} is greater '
+                             'than its upper bound')
         bounds_list.append((start, end))
     return LatticeBounds(bounds_list)
 
